@@ -334,4 +334,252 @@ theorem direct_graph_sound (c1 c2 : Circuit) (h1 : ∀ o ∈ c1.ops, OpOK (wires
     exact hD
   · injection h with h; cases h
 
+/-! ## `direct` equals its operation-list form -/
+
+/-- the boolean the lock-step walk computes on the remaining parts of two register paths -/
+def walkB (g1 g2 : MG) : List Nd → List Nd → Bool
+  | [], _ => true
+  | a :: as, b :: bs =>
+    (match g1.opOf a, g2.opOf b with
+      | some o1, some o2 => directMatch o1 o2
+      | _, _ => false) && walkB g1 g2 as bs
+  | _ :: _, [] => false
+
+theorem Rep0.path_opOf_some {g : MG} {W : List Wire} {body : Wire → List Nd} (r : Rep0 g W body) (w : Wire) (hw : w ∈ W)
+    (n : Nd) (hn : n ∈ pathOf body w) : ∃ o, g.opOf n = some o := by
+  rcases (mem_pathOf body w n).1 hn with rfl | h | rfl
+  · exact ⟨_, r.inpOp w hw⟩
+  · obtain ⟨_, o, _, ho, _⟩ := r.bodyOp w hw n h
+    exact ⟨_, ho⟩
+  · exact ⟨_, r.outOp w hw⟩
+
+/-- **the lock-step walk never raises on circuit DAGs and computes `walkB`** -/
+theorem directWalk_eq (g1 g2 : MG) (W1 W2 : List Wire) (B1 B2 : Wire → List Nd) (r1 : Rep0 g1 W1 B1) (r2 : Rep0 g2 W2 B2)
+    (w : Wire) (hw1 : w ∈ W1) (hw2 : w ∈ W2) :
+    ∀ (fuel : Nat) (rest1 pre1 : List Nd) (n1 : Nd) (pre2 : List Nd) (n2 : Nd) (rest2 : List Nd),
+      pathOf B1 w = pre1 ++ n1 :: rest1 → pathOf B2 w = pre2 ++ n2 :: rest2 → rest1.length ≤ fuel →
+      NodeMatch g1 g2 n1 n2 → directWalk g1 g2 w fuel n1 n2 = .ok (walkB g1 g2 rest1 rest2) := by
+  intro fuel
+  induction fuel with
+  | zero =>
+    intro rest1 pre1 n1 pre2 n2 rest2 _ _ hlen _
+    have : rest1 = [] := List.length_eq_zero_iff.1 (Nat.le_zero.1 hlen)
+    subst this
+    rfl
+  | succ k ih =>
+    intro rest1 pre1 n1 pre2 n2 rest2 h1 h2 hlen hm
+    cases rest1 with
+    | nil =>
+      have hn1 : n1 = .out w := by
+        have hlast : (pathOf B1 w).getLast? = some (Nd.out w) := by
+          unfold pathOf
+          rw [← List.cons_append, List.getLast?_append]
+          simp
+        rw [h1] at hlast
+        simpa using hlast
+      rw [directWalk, hn1]
+      simp [walkB]
+    | cons v1 rest1' =>
+      have hadj : Adj (pathOf B1 w) n1 v1 := ⟨pre1, rest1', h1⟩
+      have hn1ne : n1 ≠ .out w := by
+        intro hh
+        rw [hh] at h1
+        have := path_last_unique r1 w hw1 pre1 (v1 :: rest1') h1
+        cases this
+      have hn1 : (n1 == Nd.out w) = false := by simpa using hn1ne
+      obtain ⟨e0, he0, hs0, hd0, hk0⟩ := r1.edge_complete w hw1 n1 v1 hadj
+      obtain ⟨e1, hf1⟩ : ∃ e1, g1.outEdge n1 w = some e1 := by
+        have := outEdge_isSome_of_mem g1 e0 he0
+        rwa [hs0, hk0] at this
+      obtain ⟨he1, hs1, hk1⟩ := outEdge_some g1 n1 w e1 hf1
+      have hd1 : e1.dst = v1 := by
+        rw [← hd0]
+        exact r1.uniqueOut e1 e0 he1 he0 (hs1.trans hs0.symm) (hk1.trans hk0.symm)
+      -- the second path goes on as well: otherwise `n2` is an output node matched with a non-output node
+      cases rest2 with
+      | nil =>
+        exfalso
+        have hn2 : n2 = .out w := by
+          have hlast : (pathOf B2 w).getLast? = some (Nd.out w) := by
+            unfold pathOf
+            rw [← List.cons_append, List.getLast?_append]
+            simp
+          rw [h2] at hlast
+          simpa using hlast
+        obtain ⟨o1, o2, ho1, ho2, hd⟩ := hm
+        rw [hn2, r2.outOp w hw2] at ho2
+        injection ho2 with ho2
+        subst ho2
+        have : ∃ w', o1 = .output w' := by
+          cases o1 with
+          | output w' => exact ⟨w', rfl⟩
+          | input _ => simp [directMatch, isInstance] at hd
+          | gate _ => simp [directMatch, isInstance] at hd
+        obtain ⟨w', rfl⟩ := this
+        obtain ⟨hn1', _⟩ := r1.kindOut _ _ ho1
+        have hmem : n1 ∈ pathOf B1 w := by rw [h1]; simp
+        rw [hn1'] at hmem
+        have := r1.out_on_path w w' hw1 hmem
+        subst this
+        exact hn1ne hn1'
+      | cons v2 rest2' =>
+        have hadj2 : Adj (pathOf B2 w) n2 v2 := ⟨pre2, rest2', h2⟩
+        obtain ⟨f0, hf0, hs0', hd0', hk0'⟩ := r2.edge_complete w hw2 n2 v2 hadj2
+        obtain ⟨e2, hf2⟩ : ∃ e2, g2.outEdge n2 w = some e2 := by
+          have := outEdge_isSome_of_mem g2 f0 hf0
+          rwa [hs0', hk0'] at this
+        obtain ⟨he2, hs2, hk2⟩ := outEdge_some g2 n2 w e2 hf2
+        have hd2 : e2.dst = v2 := by
+          rw [← hd0']
+          exact r2.uniqueOut e2 f0 he2 hf0 (hs2.trans hs0'.symm) (hk2.trans hk0'.symm)
+        obtain ⟨o1, ho1⟩ := r1.path_opOf_some w hw1 v1 (adj_mem_right hadj)
+        obtain ⟨o2, ho2⟩ := r2.path_opOf_some w hw2 v2 (adj_mem_right hadj2)
+        rw [directWalk]
+        simp only [hn1, Bool.false_eq_true, if_false, hf1, hf2, hd1, hd2, ho1, ho2, walkB]
+        cases hdm : directMatch o1 o2 with
+        | false => simp
+        | true =>
+          simp only [if_true, Bool.true_and]
+          have h1' : pathOf B1 w = (pre1 ++ [n1]) ++ v1 :: rest1' := by rw [h1]; simp
+          have h2' : pathOf B2 w = (pre2 ++ [n2]) ++ v2 :: rest2' := by rw [h2]; simp
+          exact ih rest1' _ v1 _ v2 rest2' h1' h2' (by simpa using hlen) ⟨o1, o2, ho1, ho2, hdm⟩
+
+theorem directMatch_output (w : Wire) : directMatch (.output w) (.output w) = true := by
+  simp [directMatch, isInstance]
+
+theorem directMatch_input (w : Wire) : directMatch (.input w) (.input w) = true := by
+  simp [directMatch, isInstance]
+
+/-- on two register paths (operation nodes, then the output node) `walkB` is the operation-list walk `walkL` -/
+theorem walkB_eq_walkL (g1 g2 : MG) (w : Wire) (ho1 : g1.opOf (.out w) = some (.output w)) (ho2 : g2.opOf (.out w) = some (.output w)) :
+    ∀ (b1 b2 : List Nd), (∀ n ∈ b1, ∃ o, g1.opOf n = some (.gate o)) → (∀ n ∈ b2, ∃ o, g2.opOf n = some (.gate o)) →
+      walkB g1 g2 (b1 ++ [Nd.out w]) (b2 ++ [Nd.out w]) = walkL (b1.filterMap (gateAt g1)) (b2.filterMap (gateAt g2)) := by
+  intro b1
+  induction b1 with
+  | nil =>
+    intro b2 _ h2
+    cases b2 with
+    | nil => simp [walkB, walkL, ho1, ho2, directMatch_output]
+    | cons b b2' =>
+      obtain ⟨o, ho⟩ := h2 b (by simp)
+      have hg : gateAt g2 b = some o := by unfold gateAt; rw [ho]
+      simp [walkB, walkL, ho1, ho, hg, directMatch, isInstance]
+  | cons a b1' ih =>
+    intro b2 h1 h2
+    obtain ⟨oa, hoa⟩ := h1 a (by simp)
+    have hga : gateAt g1 a = some oa := by unfold gateAt; rw [hoa]
+    cases b2 with
+    | nil => simp [walkB, walkL, hoa, ho2, hga, directMatch, isInstance]
+    | cons b b2' =>
+      obtain ⟨ob, hob⟩ := h2 b (by simp)
+      have hgb : gateAt g2 b = some ob := by unfold gateAt; rw [hob]
+      simp only [List.cons_append, walkB, hoa, hob, List.filterMap_cons, hga, hgb, walkL, directMatch_gate]
+      rw [ih b2' (fun n hn => h1 n (List.mem_cons_of_mem _ hn)) (fun n hn => h2 n (List.mem_cons_of_mem _ hn))]
+
+theorem foldlM_eq_all (step : Bool → Wire → Except Err Bool) (b : Wire → Bool)
+    (hs1 : ∀ w, step false w = .ok false) :
+    ∀ (ws : List Wire) (acc : Bool), (∀ w ∈ ws, step true w = .ok (b w)) → ws.foldlM step acc = .ok (acc && ws.all b) := by
+  intro ws
+  induction ws with
+  | nil => intro acc _; simp [pure, Except.pure]
+  | cons w rest ih =>
+    intro acc h
+    rw [List.foldlM_cons]
+    cases acc with
+    | false =>
+      rw [hs1]
+      show rest.foldlM step false = _
+      rw [ih false (fun w' hw' => h w' (List.mem_cons_of_mem _ hw'))]
+      simp
+    | true =>
+      rw [h w (by simp)]
+      show rest.foldlM step (b w) = _
+      rw [ih (b w) (fun w' hw' => h w' (List.mem_cons_of_mem _ hw'))]
+      simp
+
+theorem all_congr_mem {α : Type} (l1 l2 : List α) (p : α → Bool) (h : ∀ x, x ∈ l1 ↔ x ∈ l2) : l1.all p = l2.all p := by
+  apply Bool.eq_iff_iff.2
+  simp only [List.all_eq_true]
+  constructor
+  · intro h' x hx; exact h' x ((h x).2 hx)
+  · intro h' x hx; exact h' x ((h x).1 hx)
+
+/-- **the model of `direct` (walk over the two normalised DAGs) never raises on well-formed circuits and returns exactly its
+    operation-list form `directL`** — so every theorem about `directL` (soundness, reflexivity, symmetry, insensitivity to
+    wrapping and identities) is a theorem about the walk -/
+theorem direct_eq_directL (c1 c2 : Circuit) (h1 : ∀ o ∈ c1.ops, OpOK (wiresN c1.ne c1.np c1.nc) o)
+    (h2 : ∀ o ∈ c2.ops, OpOK (wiresN c2.ne c2.np c2.nc) o) : direct c1 c2 = .ok (directL c1 c2) := by
+  obtain ⟨g1, hb1, i1, a1, a2, a3⟩ := build_rep c1 h1
+  obtain ⟨g2, hb2, i2, b1, b2, b3⟩ := build_rep c2 h2
+  obtain ⟨⟨B1, r1, hops1, _⟩, hcount1⟩ := normalise_full _ g1 c1.ops i1
+  obtain ⟨⟨B2, r2, hops2, _⟩, hcount2⟩ := normalise_full _ g2 c2.ops i2
+  have hc1 := normalise_counts g1
+  have hc2 := normalise_counts g2
+  unfold direct
+  rw [hb1, hb2]
+  simp only [bind, Except.bind, pure, Except.pure]
+  rw [hc1.1, hc1.2.1, hc1.2.2, hc2.1, hc2.2.1, hc2.2.2, a1, a2, a3, b1, b2, b3]
+  by_cases hreg : c1.ne = c2.ne ∧ c1.np = c2.np ∧ c1.nc = c2.nc
+  · obtain ⟨e1, e2, e3⟩ := hreg
+    have hW : wiresN c2.ne c2.np c2.nc = wiresN c1.ne c1.np c1.nc := by rw [e1, e2, e3]
+    rw [hW] at r2 hops2 hcount2
+    by_cases hlen : (Export.flat c1.ops).length = (Export.flat c2.ops).length
+    · have hnodes : g1.normalise.nodes.length = g2.normalise.nodes.length := by rw [hcount1, hcount2, hlen]
+      have hcond : ((c1.ne == c2.ne && c1.np == c2.np && c1.nc == c2.nc) &&
+          (g1.normalise.nodes.length == g2.normalise.nodes.length)) = true := by simp [e1, e2, e3, hnodes]
+      rw [if_pos hcond]
+      -- every walk computes the operation-list walk of its register
+      have hwalk : ∀ w ∈ g1.normalise.inputs,
+          directWalk g1.normalise g2.normalise w (g1.normalise.nodes.length + 1) (.inp w) (.inp w)
+            = .ok (walkL ((Export.flat c1.ops).filter (touches w)) ((Export.flat c2.ops).filter (touches w))) := by
+        intro w hwin
+        have hw : w ∈ wiresN c1.ne c1.np c1.nc := r1.inputsW w ((mem_inputs _ _).1 hwin)
+        have hfuel : (B1 w ++ [Nd.out w]).length ≤ g1.normalise.nodes.length + 1 := by
+          have := r1.path_length_le w hw
+          unfold pathOf at this
+          simp only [List.length_cons] at this
+          omega
+        have hm0 : NodeMatch g1.normalise g2.normalise (.inp w) (.inp w) :=
+          ⟨_, _, r1.inpOp w hw, r2.inpOp w hw, directMatch_input w⟩
+        rw [directWalk_eq _ _ _ _ B1 B2 r1 r2 w hw hw _ _ [] _ [] _ _ rfl rfl hfuel hm0,
+          walkB_eq_walkL _ _ w (r1.outOp w hw) (r2.outOp w hw) (B1 w) (B2 w)
+            (fun n hn => by obtain ⟨_, o, _, ho, _⟩ := r1.bodyOp w hw n hn; exact ⟨o, ho⟩)
+            (fun n hn => by obtain ⟨_, o, _, ho, _⟩ := r2.bodyOp w hw n hn; exact ⟨o, ho⟩)]
+        have e1' := hops1 w hw
+        have e2' := hops2 w hw
+        unfold wireOps at e1' e2'
+        rw [e1', e2']
+      rw [foldlM_eq_all _ (fun w => walkL ((Export.flat c1.ops).filter (touches w)) ((Export.flat c2.ops).filter (touches w)))
+        (fun w => rfl) g1.normalise.inputs true (fun w hw => hwalk w hw)]
+      congr 1
+      unfold directL
+      simp only [e1, e2, e3, hlen, beq_self_eq_true, Bool.true_and]
+      apply all_congr_mem
+      intro w
+      rw [mem_inputs]
+      constructor
+      · intro hm; exact r1.inputsW w hm
+      · intro hm; exact opOf_some_mem _ _ _ (r1.inpOp w hm)
+    · have hnodes : g1.normalise.nodes.length ≠ g2.normalise.nodes.length := by
+        rw [hcount1, hcount2]; omega
+      have hcond : ¬ ((c1.ne == c2.ne && c1.np == c2.np && c1.nc == c2.nc) &&
+          (g1.normalise.nodes.length == g2.normalise.nodes.length)) = true := by simp [hnodes]
+      rw [if_neg hcond]
+      congr 1
+      unfold directL
+      simp [hlen]
+  · have hcond : ¬ ((c1.ne == c2.ne && c1.np == c2.np && c1.nc == c2.nc) &&
+        (g1.normalise.nodes.length == g2.normalise.nodes.length)) = true := by
+      intro hh
+      simp only [Bool.and_eq_true, beq_iff_eq] at hh
+      exact hreg ⟨hh.1.1.1, hh.1.1.2, hh.1.2⟩
+    rw [if_neg hcond]
+    congr 1
+    unfold directL
+    symm
+    apply Bool.eq_false_iff.2
+    intro hh
+    simp only [Bool.and_eq_true, beq_iff_eq] at hh
+    exact hreg ⟨hh.1.1.1.1, hh.1.1.1.2, hh.1.1.2⟩
+
 end Graphiq.Compare
